@@ -177,10 +177,47 @@ def run(repo, rep, tier):
             raise AnalysisError(f"{c.name}.children not found")
         rep.analysed_functions.add(ch.construct)
         selfname = ch.params[0]
-        read = set()
-        for n in walk_local_stmt(ch.node):
-            if isinstance(n, ast.Attribute) and isinstance(n.value, ast.Name) and n.value.id == selfname:
-                read |= storage_attrs(repo, c, n.attr)
+
+        def guaranteed(e, env):
+            """stored slots that are part of the value of e whatever the conditions evaluate to"""
+            if isinstance(e, ast.Attribute) and isinstance(e.value, ast.Name) and e.value.id == selfname:
+                return set(storage_attrs(repo, c, e.attr))
+            if isinstance(e, ast.Name):
+                return set(env.get(e.id, set()))
+            if isinstance(e, ast.IfExp):
+                return guaranteed(e.body, env) & guaranteed(e.orelse, env)        # the test only selects
+            if isinstance(e, ast.BoolOp):
+                out0 = None
+                for v in e.values:
+                    gv = guaranteed(v, env)
+                    out0 = gv if out0 is None else (out0 & gv)
+                return out0 or set()
+            out0 = set()
+            for ch0 in ast.iter_child_nodes(e):
+                if isinstance(ch0, ast.expr):
+                    out0 |= guaranteed(ch0, env)
+                elif isinstance(ch0, ast.comprehension):
+                    out0 |= guaranteed(ch0.iter, env)
+            return out0
+        env0 = {}
+        rets = []
+        for st in walk_local_stmt(ch.node):
+            if isinstance(st, ast.Assign) and len(st.targets) == 1 and isinstance(st.targets[0], ast.Name):
+                env0[st.targets[0].id] = env0.get(st.targets[0].id, set()) | guaranteed(st.value, env0)
+            elif isinstance(st, ast.AugAssign) and isinstance(st.target, ast.Name):
+                env0[st.target.id] = env0.get(st.target.id, set()) | guaranteed(st.value, env0)
+            elif isinstance(st, ast.Expr) and isinstance(st.value, ast.Call) and isinstance(st.value.func, ast.Attribute) and \
+                    isinstance(st.value.func.value, ast.Name) and st.value.func.attr in ("append", "extend", "insert", "update"):
+                nm0 = st.value.func.value.id
+                for a0 in st.value.args:
+                    env0[nm0] = env0.get(nm0, set()) | guaranteed(a0, env0)
+            elif isinstance(st, ast.Return) and st.value is not None:
+                rets.append(st.value)
+        read = None
+        for rv in rets:
+            gv = guaranteed(rv, env0)
+            read = gv if read is None else (read & gv)
+        read = read or set()
         filled = {}
         for mname in ("fill", "_numpy"):
             f = repo.own_method(c, mname)
@@ -302,6 +339,21 @@ def walk_order_and_entries(repo, rep, cont):
                         f"{later[0].lineno} comes after it): when the walk comes back to this node through a descendant, the flag test returns "
                         f"silently instead of reaching the identity test, so a node that is its own descendant is no longer rejected",
                         stmt="flag stored before the recursion")
+    # ... and not at all when the walk fails: a flag stored in a `finally`/`except` clause marks every node on the path to a
+    # rejected node as checked, so the next fill of the same (still illegal) tree is accepted
+    for tr in [x for x in ast.walk(f.node) if isinstance(x, ast.Try)]:
+        guarded_calls = [x for b0 in tr.body for x in ast.walk(b0) if isinstance(x, ast.Call) and isinstance(x.func, ast.Attribute) and x.func.attr == GUARD]
+        raises_inside = guarded_calls or any(isinstance(x, ast.Raise) for b0 in tr.body for x in ast.walk(b0))
+        if not raises_inside:
+            continue
+        cleanup = list(tr.finalbody) + [x for h in tr.handlers for x in h.body]
+        bad = [x for st in cleanup for x in ast.walk(st) if isinstance(x, ast.Assign) and any(
+            isinstance(t, ast.Attribute) and isinstance(t.value, ast.Name) and t.value.id == selfname and t.attr in tested for t in x.targets)]
+        r4.ob(not bad, f"{f.qualname}: no flag store in finally/except around the recursion")
+        for x in bad:
+            rep.finding("R16.4", f, x, f"`{norm(x)}` sits in a finally/except clause around the walk of the children: when a descendant is rejected "
+                        f"(ContainerException), every node on the path to it is still marked as checked, so the next fill of the same tree skips "
+                        f"the check and is accepted (or ends in RecursionError after state has changed)", stmt="flag stored on the failure path")
     if not stores:
         r4.ob(True, "no once-only flag in the walk")
     r5 = rep.rule("R16.5", "outside the _numpy methods, every use of `<x>._numpy` is dominated by a call of the cross-reference walk", floor=1)
